@@ -32,3 +32,23 @@ package full
 //@   ensures $FetchErr ==> err != nil && !$PutQ4 && !$PutODS
 //@   ensures $PutErr ==> err != nil
 //@   ensures err == nil ==> $PutQ4 || $PutODS || $Had
+
+// ---------------------------------------------------------------------------------------------
+// C14: "an archival node's pruning removes only the parity quadrant and leaves the block fully servable":
+// an archival node asks the store to drop the parity file of exactly this header's height and hash and
+// nothing else; a pruned node asks for the whole block of this height and hash.
+//@ func (*ShareAvailability).Prune
+//@   property C14
+//@   noframe
+//@   requires fa != nil && eh != nil && eh.DAH != nil
+//@   only Store).Remove: RemoveQ4 RemoveODSQ4
+//@   callpre Store).RemoveQ4: fa.archival && $arg2 == eh.Height()
+//@   callpre Store).RemoveODSQ4: !fa.archival && $arg2 == eh.Height()
+
+// A node that has pruned before can never be run as archival again; the switch to pruned mode is
+// recorded exactly when an archival node is first run pruned.
+//@ func ConvertFromArchivalToPruned
+//@   property C14
+//@   noframe
+//@   ensures err == nil && result0 ==> !isArchival
+//@   checks result1 == nil && isArchival ==> !bytesEq(prevMode, pruned)
